@@ -124,7 +124,7 @@ def params_stages(depth, sample):
     return [{'kind': 'mc', 'name': 'params', 'module': 'MC_Params', 'subst': {'Keys': 'KeysP', 'Vals': 'ValsSmall'}, 'consts': {'Depth': 4, 'EmitAll': 'FALSE'},
              'invariants': ['MapLaws'], 'view': 'viewP', 'workers': 8},
             {'kind': 'gen', 'name': 'params%d' % depth, 'module': 'MC_Params', 'subst': {'Keys': 'KeysP', 'Vals': 'ValsP'}, 'consts': {'Depth': depth, 'EmitAll': 'TRUE'},
-             'trace': 'Trace_Params', 'sample': sample, 'min_per_shard': 50}]
+             'trace': 'Trace_Params', 'sample': sample, 'min_per_shard': 50, 'replay_prefix': True}]
 
 
 RULE_CONC = ('TLC (-simulate, seeded) generates concurrent PROGRAMS (one op list per goroutine: writers Handle/Remove/Clean that split and re-merge nodes of untouched routes, '
